@@ -245,10 +245,15 @@ def main(argv):
                 k = (w["property"], w["rule"], w["construct"], w["statement"])
                 print(f"[{pid}] replay {w['rule']} at {w['construct']}: {'REPRODUCED' if k in keys else 'not reproduced'}")
         st = None
-        if not viol:
+        if not viol and os.environ.get("VERIF_NO_SELFTEST"):
+            # tools that only want the verdict on a scratch tree (seed matrix) skip the mutant runs; never set by the registered commands
+            st = {"mutants": 0, "detected": 0, "neutral": 0, "skipped": 0, "failures": [], "details": [], "note": "self-test skipped (VERIF_NO_SELFTEST)"}
+            print(f"[{pid}] self-test skipped (VERIF_NO_SELFTEST)")
+        elif not viol:
             st = selftest(pid, rep, a.tier, a.root)
-            print(f"[{pid}] self-test: {st['detected']}/{st['mutants']} seeded faults detected, "
-                  f"{st['neutral']} behaviour-preserving edits silent, {st['skipped']} skipped")
+            if "note" not in st:
+                print(f"[{pid}] self-test: {st['detected']}/{st['mutants']} seeded faults detected, "
+                      f"{st['neutral']} behaviour-preserving edits silent, {st['skipped']} skipped")
             if st["failures"]:
                 for x in st["failures"]:
                     print(f"[{pid}] SELFTEST-FAILURE: {x}")
